@@ -6,6 +6,7 @@ SELECT = r'^bluetoe::(notification_queue|details::notification_queue_impl|detail
 UNITS = lambda u: u in ('w_inst_att',) or u.startswith('t_notification_queue') or u.startswith('t_att_outgoing')
 Q = 'bluetoe::details::notification_queue_impl::'
 B = 'bluetoe::details::notification_queue_impl_base::'
+ALSO = [('C11', ('outstanding-writers',))]   # the queue is emptied on connect by the per-level clear, not by code that goes through the outstanding-indication protocol: decided by C11's rule, run here as well
 META = {
     'level': 'necessary structural conditions for "set of pending (characteristic, kind) requests with priorities and round robin", checked identically on the general and the single-entry '
              'implementation: (1) state capacity - the per-characteristic state keeps notification and indication in independent bits (a 3-valued enum cannot represent both pending: pigeonhole); '
